@@ -10,18 +10,49 @@ open TaRs TaRs.Rs
 
 variable {F : Type} [Scalar F]
 
-/-- `next` never panics on a well-formed state, keeps it well-formed and keeps the period.
+/-- the deviation loop of `next`: mean absolute deviation of the first `c` slots of `d` about
+    the running mean `sm / c` -/
+def madOut (sm : F) (c : Nat) (d : Array F) : F :=
+  Scalar.div
+    (List.foldl (fun mad v => Scalar.add mad (Scalar.abs (Scalar.sub v (Scalar.div sm (Scalar.ofNat c)))))
+      (Scalar.lit 0 0) ((d.toList.drop 0).take (c - 0)))
+    (Scalar.ofNat c)
+
+/-- Normal form of one `next` on a well-formed state.  This is the ONLY fact about `next` proved
+    by executing the generated body; it does so with `rs_exec`, which does not depend on how the
+    wrap-around and warm-up tests are spelled.  Everything else is derived from it.
     (The `for` loop over `&self.deque[..self.count]` is a pure fold; only the slice bound
     `count ≤ deque.len()` matters.) -/
-theorem next_total (s : MeanAbsoluteDeviation F) (x : F) (h : WF s) :
-    ∃ r, s.next x = some r ∧ WF r.1 ∧ r.1.period = s.period := by
+theorem next_eq (s : MeanAbsoluteDeviation F) (x v : F) (h : WF s) (hv : s.deque[s.index]? = some v) :
+    s.next x = some (
+      { period := s.period,
+        index := if s.index + 1 < s.period then s.index + 1 else 0,
+        count := if s.count < s.period then s.count + 1 else s.count,
+        sum := if s.count < s.period then Scalar.add s.sum x else Scalar.sub (Scalar.add s.sum x) v,
+        deque := s.deque.setIfInBounds s.index x },
+      madOut (if s.count < s.period then Scalar.add s.sum x else Scalar.sub (Scalar.add s.sum x) v)
+        (if s.count < s.period then s.count + 1 else s.count)
+        (s.deque.setIfInBounds s.index x)) := by
   obtain ⟨hp, hs, hsz, hi, hc⟩ := h
   have hm : isizeMax < usizeMax := by decide
-  unfold next
-  by_cases c1 : s.index + 1 < s.period <;> by_cases c2 : s.count < s.period <;>
-    simp (disch := first | omega | (simp only [Array.size_setIfInBounds]; omega))
-      [index_eq, setIndex_eq, uadd_eq, slice_eq, c1, c2] <;>
-    constructor <;> simp_all <;> omega
+  have hix : s.index < s.deque.size := by omega
+  rw [Array.getElem?_eq_getElem hix] at hv
+  have hv := Option.some.inj hv
+  unfold next madOut
+  rs_exec
+  all_goals try omega
+  all_goals
+    simp (disch := first | omega | (simp only [Array.size_setIfInBounds]; omega)) only
+      [slice_eq, Option.bind_eq_bind, Option.bind_some, Option.pure_def]
+  all_goals (first | omega | (subst hv; rfl))
+
+/-- `next` never panics on a well-formed state, keeps it well-formed and keeps the period. -/
+theorem next_total (s : MeanAbsoluteDeviation F) (x : F) (h : WF s) :
+    ∃ r, s.next x = some r ∧ WF r.1 ∧ r.1.period = s.period := by
+  have hix : s.index < s.deque.size := by have := h.size; have := h.idx; omega
+  refine ⟨_, next_eq s x _ h (Array.getElem?_eq_getElem hix), ?_, rfl⟩
+  obtain ⟨hp, hs, hsz, hi, hc⟩ := h
+  constructor <;> simp only [Array.size_setIfInBounds] <;> (try split) <;> omega
 
 theorem nextBar_eq (s : MeanAbsoluteDeviation F) (b : Bar F) : s.nextBar b = s.next b.close := by
   unfold nextBar
